@@ -467,6 +467,9 @@ func (s *Solver) Model(vars []*sym.Term) (map[string]uint64, bool) {
 			return res, false
 		}
 		txt := strings.Join(lines, " ")
+		if os.Getenv("VERIF_DEBUGCE") != "" {
+			fmt.Fprintf(os.Stderr, "DEBUGMODEL names=%d reply=%.300s\n", len(names), txt)
+		}
 		if strings.Contains(txt, "(error") {
 			s.LastErr = txt
 			return res, false
